@@ -195,6 +195,27 @@ def c01p(db, res, own):
                 res.check(grown is None, 'C01.q', key, 'the length of the view is only ever reduced or refilled',
                           '%s lengthens `%s` by hand after %s() handed out the view (%s, %s): when the view is the carry buffer it ends at the old length, and whoever is given (%s, %s) reads past the allocation' % (name, L['name'], c.get('callee'), D['name'], L['name'], D['name'], L['name']), (grown or c).get('loc', f.loc))
     res.floor('C01.q', 'views handed out through adjacent out-parameters', nq, 10)
+    # ---- C01.r positions and lengths kept in parser state are not narrowed
+    res.rule('C01.r', 'positions keep their width: no store into an integer field of a parser state record (htp_connp_t, htp_tx_t, htp_mpartp_t, htp_multipart_part_t, htp_urlenp_t) takes a non-constant value of a wider integer type - an offset into a chunk of more than 64 KiB (or 4 GiB) is not cut to its low bits')
+    WIDTH = {'unsigned long': 64, 'long': 64, 'unsigned long long': 64, 'long long': 64, 'unsigned int': 32, 'int': 32, 'unsigned short': 16, 'short': 16, 'unsigned char': 8, 'char': 8, 'signed char': 8}
+    nr = 0
+    for name, f in sorted(db.fn.items()):
+        if not f.blocks or f.loc.startswith('htp/lzma/'):
+            continue
+        for b, i, st in f.stmts():
+            for a in nodes(st, lambda y: y.get('k') == 'assign' and y['op'] == '=' and strip(y['l']).get('k') == 'member' and strip(y['l']).get('rec') in ('htp_connp_t', 'htp_tx_t', 'htp_mpartp_t', 'htp_multipart_part_t', 'htp_urlenp_t')):
+                r = strip(a['r'])
+                lt, rt = a.get('t'), (r or {}).get('t')
+                if lt not in WIDTH or rt not in WIDTH:
+                    continue
+                nr += 1
+                narrow = WIDTH[rt] > WIDTH[lt] and r.get('k') != 'lit'
+                l = strip(a['l'])
+                if narrow:
+                    res.violated('C01.r', '%s:%s.%s' % (name, l.get('rec'), l['field']), '%s stores %s (a %s) into %s.%s, which is a %s: the value is cut to its low %d bits - a position or length beyond that range silently becomes a different one, and the bytes in between are lost or read twice' % (name, S(r)[:50], rt, l.get('rec'), l['field'], lt, WIDTH[lt]), a['loc'])
+    res.floor('C01.r', 'integer stores into parser state records', nr, 100)
+    if not [o for o in res.obs if o['rule'] == 'C01.r']:
+        res.holds('C01.r', 'parser-state-widths', '%d integer stores into parser state records, none narrows a non-constant value' % nr, '')
     res.rule('C01.p', 'owning fields own: a field that receives allocations somewhere (and is released with its record) is never assigned the value read from another record\'s field - a borrowed pointer - except at the tabled hand-overs')
     n = 0
     for name, f in sorted(db.fn.items()):
